@@ -299,10 +299,13 @@ func (m *txMock) TxRelayPayment(_ context.Context, relays []*pairingtypes.RelayS
 			s.gs[id] = st
 		}
 		st.subs++
+		s.ks[id.k].subs++
 		if !ok {
 			st.fails++
+			s.ks[id.k].fails++
 		} else {
 			st.oks++
+			s.ks[id.k].oks++
 		}
 		e := uint64(p.Epoch)
 		if e+blockDist > m.claimEpoch {
@@ -378,6 +381,7 @@ type scen struct {
 	// signature -> consumer index of every proof the harness ever signs (identifies the signer of restored
 	// proofs without another public-key recovery)
 	sigCons map[string]int
+	hasDB   bool // the alphabet contains snapshot, i.e. the DB can hold proofs
 
 	// per-history state
 	db       *memDB
@@ -390,6 +394,7 @@ type scen struct {
 	gen      [8]int
 	ptr      map[*pairingtypes.RelaySession]pg
 	gs       map[pg]*genstat
+	ks       [8]genstat // the same counters per proof identity (all generations of this process lifetime together)
 	should   map[int]shouldEnt
 	paidable [8][]uint64
 	snapPtr  map[int]*pairingtypes.RelaySession
@@ -405,6 +410,7 @@ type scen struct {
 	forkFlag      bool
 	lastExpandKey string
 	rebuilds      int
+	orderRetries  int
 }
 
 // alphabet restricts the operation alphabet of a scenario (the full alphabet is the zero value).
@@ -501,6 +507,7 @@ func newScen(al alphabet) *scen {
 		}
 	}
 	add(opdef{name: "snapshot", kind: opSnapshot})
+	s.hasDB = al.kinds == nil || al.kinds[opSnapshot]
 	for k := 0; k < 8; k++ {
 		add(opdef{name: fmt.Sprintf("paymentEvent(%s)", kName(k)), kind: opPayment, k: k})
 	}
@@ -545,6 +552,7 @@ func (s *scen) resetInternal() {
 	s.gen = [8]int{}
 	s.ptr = map[*pairingtypes.RelaySession]pg{}
 	s.gs = map[pg]*genstat{}
+	s.ks = [8]genstat{}
 	s.should = map[int]shouldEnt{}
 	s.paidable = [8][]uint64{}
 	s.snapPtr = nil
@@ -620,19 +628,19 @@ func (s *scen) onDelete(key, shape string) {
 	if !has {
 		return
 	}
-	legit := s.cause == "payment" || kEpoch(k) < s.mem()
-	if st := s.gs[ent.g]; st != nil && st.fails >= giveUp {
-		legit = true
-	}
+	// give-up by design: the submissions of this proof identity (all its generations in this process lifetime -
+	// they share the DB key - counted together, the weaker reading) failed MaxPaymentRequestsRetiresForSession times
+	legit := s.cause == "payment" || kEpoch(k) < s.mem() || s.ks[k].fails >= giveUp
 	if legit {
 		delete(s.should, k)
 		return
 	}
-	// two stable shapes: the stored proof had been submitted (its retries are cut short) or never was
+	// three stable shapes: the identity was already submitted successfully (it waits for its payment event), it
+	// was submitted and its retries are cut short, or it was never submitted
 	how := "never-submitted"
-	if st := s.gs[ent.g]; st != nil && st.oks > 0 {
-		how = "already-submitted-ok" // the stored proof was submitted successfully and waits for its payment event
-	} else if st != nil && st.subs > 0 {
+	if s.ks[k].oks > 0 {
+		how = "already-submitted-ok"
+	} else if s.ks[k].subs > 0 {
 		how = "retried-fewer-than-max"
 	}
 	ent.lostBy = s.cause + ":" + shape + ":" + how
@@ -880,6 +888,7 @@ func (s *scen) exec(op int, probe bool) result {
 		// new process lifetime: everything not in the DB is gone, counters start again
 		s.ptr = map[*pairingtypes.RelaySession]pg{}
 		s.gs = map[pg]*genstat{}
+		s.ks = [8]genstat{}
 		s.paidable = [8][]uint64{}
 		for k := 0; k < 8; k++ {
 			s.gen[k]++
@@ -918,115 +927,140 @@ func (s *scen) exec(op int, probe bool) result {
 			// its retry entry removed): the order is neither a separate operation nor enforced
 			return result{obs: "variant-needs-a-failing-new-claim"}
 		}
-		if o.desc {
-			perSession := map[uint64]int{}
-			twice := false
-			for _, vp := range s.srv.VerifDumpProofs() {
-				perSession[vp.SessionId]++
-				twice = twice || perSession[vp.SessionId] > 1
-			}
-			if !twice {
-				return result{obs: "variant-needs-same-session-proofs-in-one-claim"}
-			}
+		perSession := map[uint64]int{}
+		twice := false
+		for _, vp := range s.srv.VerifDumpProofs() {
+			perSession[vp.SessionId]++
+			twice = twice || perSession[vp.SessionId] > 1
 		}
-		s.E += epochSize
-		m := s.tx
-		m.preRetry, m.claimer, m.newFirst = pre, goid(), !o.retryFirst
-		m.okByKind = [2]bool{o.okNew, o.okRetry}
-		m.calls, m.viols, m.claimEpoch = nil, nil, s.E
-		m.baseG = runtime.NumGoroutine()
-		pendingBefore := s.pending
-		s.cause = "claim"
-		s.srv.VerifSendRewardsClaim(bg, s.E)
-		var newCall, retryCall *txCall
-		for i := range m.calls {
-			c := &m.calls[i]
-			if c.kind == kindNew {
-				if newCall != nil {
-					panic("c29 harness: two new-claim calls in one claim")
-				}
-				newCall = c
-			} else {
-				if retryCall != nil {
-					panic("c29 harness: two retry calls in one claim")
-				}
-				retryCall = c
-			}
+		if o.desc && !twice {
+			return result{obs: "variant-needs-same-session-proofs-in-one-claim"}
 		}
-		if len(m.viols) > 0 {
-			// an oracle inside TxRelayPayment fired (window / retry budget): these do not depend on the order in
-			// which this claim processed its proofs
-			return result{accepted: true, obs: "claim-violation", viol: m.viols}
-		}
-		both := newCall != nil && retryCall != nil
-		if (retryCall != nil) != retryAlive {
-			panic("c29 harness: wrong prediction of the retry claim")
-		}
-		if !both && (o.retryFirst || o.okNew != o.okRetry) {
-			return result{mutated: true, obs: "variant-needs-two-claim-goroutines"}
-		}
-		if len(m.calls) == 0 && !o.okNew {
-			return result{mutated: true, obs: "variant-needs-a-claim"}
-		}
-		groups := map[uint64][]int{}
-		if newCall != nil {
-			for _, p := range newCall.relays {
-				groups[p.SessionId] = append(groups[p.SessionId], kRank(s.ptr[p].k))
-			}
-		}
-		collide := false
-		for _, g := range groups {
-			if len(g) > 1 {
-				collide = true
-			}
-		}
-		if o.desc && !collide {
-			return result{mutated: true, obs: "variant-needs-same-session-proofs-in-one-claim"}
-		}
-		for _, g := range groups {
-			for i := 1; i < len(g) && !o.okNew; i++ {
-				if (!o.desc && g[i-1] >= g[i]) || (o.desc && g[i-1] <= g[i]) {
-					return result{mutated: true, orderMiss: true}
+		claim := func() result {
+			res := result{accepted: true}
+			s.E += epochSize
+			m := s.tx
+			m.preRetry, m.claimer, m.newFirst = pre, goid(), !o.retryFirst
+			m.okByKind = [2]bool{o.okNew, o.okRetry}
+			m.calls, m.viols, m.claimEpoch = nil, nil, s.E
+			m.baseG = runtime.NumGoroutine()
+			pendingBefore := s.pending
+			s.cause = "claim"
+			s.srv.VerifSendRewardsClaim(bg, s.E)
+			var newCall, retryCall *txCall
+			for i := range m.calls {
+				c := &m.calls[i]
+				if c.kind == kindNew {
+					if newCall != nil {
+						panic("c29 harness: two new-claim calls in one claim")
+					}
+					newCall = c
+				} else {
+					if retryCall != nil {
+						panic("c29 harness: two retry calls in one claim")
+					}
+					retryCall = c
 				}
 			}
-		}
-		// best proof submitted / claimed in window
-		submittedNew := map[int]bool{}
-		if newCall != nil {
-			for _, p := range newCall.relays {
-				id := s.ptr[p]
-				if id.g != s.gen[id.k] {
+			if len(m.viols) > 0 {
+				// an oracle inside TxRelayPayment fired (window / retry budget): these do not depend on the order in
+				// which this claim processed its proofs
+				return result{accepted: true, obs: "claim-violation", viol: m.viols}
+			}
+			both := newCall != nil && retryCall != nil
+			if (retryCall != nil) != retryAlive {
+				panic("c29 harness: wrong prediction of the retry claim")
+			}
+			if !both && (o.retryFirst || o.okNew != o.okRetry) {
+				return result{mutated: true, obs: "variant-needs-two-claim-goroutines"}
+			}
+			if len(m.calls) == 0 && !o.okNew {
+				return result{mutated: true, obs: "variant-needs-a-claim"}
+			}
+			groups := map[uint64][]int{}
+			if newCall != nil {
+				for _, p := range newCall.relays {
+					groups[p.SessionId] = append(groups[p.SessionId], kRank(s.ptr[p].k))
+				}
+			}
+			collide := false
+			for _, g := range groups {
+				if len(g) > 1 {
+					collide = true
+				}
+			}
+			if o.desc && !collide {
+				return result{mutated: true, obs: "variant-needs-same-session-proofs-in-one-claim"}
+			}
+			for _, g := range groups {
+				for i := 1; i < len(g) && !o.okNew; i++ {
+					if (!o.desc && g[i-1] >= g[i]) || (o.desc && g[i-1] <= g[i]) {
+						return result{mutated: true, orderMiss: true}
+					}
+				}
+			}
+			// best proof submitted / claimed in window
+			submittedNew := map[int]bool{}
+			if newCall != nil {
+				for _, p := range newCall.relays {
+					id := s.ptr[p]
+					if id.g != s.gen[id.k] {
+						continue
+					}
+					submittedNew[id.k] = true
+					if p.CuSum != pendingBefore[id.k] {
+						res.viol = append(res.viol, s.viol("submitted-proof-is-not-the-highest-cu",
+							fmt.Sprintf("proof %s submitted with cu %d, highest cu received before its gathering is %d", kName(id.k), p.CuSum, pendingBefore[id.k])))
+					}
+				}
+			}
+			for k := 0; k < 8; k++ {
+				if pendingBefore[k] == 0 {
 					continue
 				}
-				submittedNew[id.k] = true
-				if p.CuSum != pendingBefore[id.k] {
-					res.viol = append(res.viol, s.viol("submitted-proof-is-not-the-highest-cu",
-						fmt.Sprintf("proof %s submitted with cu %d, highest cu received before its gathering is %d", kName(id.k), p.CuSum, pendingBefore[id.k])))
+				e := kEpoch(k)
+				switch {
+				case e < s.mem(): // left chain memory: dropped
+					s.pending[k] = 0
+					s.gen[k]++
+				case e+blockDist <= s.E:
+					if !submittedNew[k] {
+						res.viol = append(res.viol, s.viol("claimable-proof-not-submitted",
+							fmt.Sprintf("epoch update %d (earliest in memory %d): proof %s (cu %d) is inside its claim window but was not submitted", s.E, s.mem(), kName(k), pendingBefore[k])))
+					}
+					s.pending[k] = 0
+					s.gen[k]++
 				}
 			}
-		}
-		for k := 0; k < 8; k++ {
-			if pendingBefore[k] == 0 {
-				continue
+			if len(res.viol) == 0 {
+				res.viol = s.checkKept(s.memoryDump())
 			}
-			e := kEpoch(k)
-			switch {
-			case e < s.mem(): // left chain memory: dropped
-				s.pending[k] = 0
-				s.gen[k]++
-			case e+blockDist <= s.E:
-				if !submittedNew[k] {
-					res.viol = append(res.viol, s.viol("claimable-proof-not-submitted",
-						fmt.Sprintf("epoch update %d (earliest in memory %d): proof %s (cu %d) is inside its claim window but was not submitted", s.E, s.mem(), kName(k), pendingBefore[k])))
-				}
-				s.pending[k] = 0
-				s.gen[k]++
+			res.obs = fmt.Sprintf("claim:new=%d,retry=%d", lenCall(newCall), lenCall(retryCall))
+			return res
+		}
+		var r result
+		for attempt := 0; ; attempt++ {
+			// the order of same-session proofs inside a failing new claim is decided by Go's map iteration: a copy of
+			// the server and of the harness bookkeeping is kept, and the claim is repeated on the copy until the real
+			// code produced the requested order
+			var bk *claimBackup
+			if !o.okNew && twice {
+				bk = s.backup()
 			}
+			r = claim()
+			if !r.orderMiss || bk == nil {
+				break
+			}
+			if attempt > 1_000_000 {
+				panic("c29 harness: requested map-iteration order never produced")
+			}
+			s.restoreBackup(bk)
+			s.orderRetries++
 		}
-		if len(res.viol) == 0 {
-			res.viol = s.checkKept(s.memoryDump())
+		if !r.accepted || r.obs == "claim-violation" {
+			return r
 		}
-		res.obs = fmt.Sprintf("claim:new=%d,retry=%d", lenCall(newCall), lenCall(retryCall))
+		res = r
 	}
 	if probe && len(res.viol) == 0 {
 		for _, d := range s.db.newOps {
@@ -1047,6 +1081,40 @@ func lenCall(c *txCall) int {
 		return 0
 	}
 	return len(c.relays)
+}
+
+// claimBackup is a copy of everything a claim can change: the server (hook VerifClone: a deep copy of its maps,
+// the proof objects are shared), the DB and the harness bookkeeping.
+type claimBackup struct {
+	srv      *rewardserver.RewardServer
+	db       *memDB
+	E        uint64
+	gs       map[pg]*genstat
+	ks       [8]genstat
+	should   map[int]shouldEnt
+	paidable [8][]uint64
+	cause    string
+}
+
+func (s *scen) backup() *claimBackup {
+	db := &memDB{s: s, data: cloneData(s.db.data), newOps: append([]dbop{}, s.db.newOps...), nops: s.db.nops}
+	rdb := rewardserver.NewRewardDB()
+	if err := rdb.AddDB(db); err != nil {
+		panic(err)
+	}
+	bk := &claimBackup{srv: s.srv.VerifClone(rdb), db: db, E: s.E, gs: map[pg]*genstat{}, ks: s.ks, should: cloneShould(s.should), cause: s.cause}
+	for g, st := range s.gs {
+		c := *st
+		bk.gs[g] = &c
+	}
+	for k := range s.paidable {
+		bk.paidable[k] = append([]uint64{}, s.paidable[k]...)
+	}
+	return bk
+}
+
+func (s *scen) restoreBackup(bk *claimBackup) {
+	s.srv, s.db, s.E, s.gs, s.ks, s.should, s.paidable, s.cause = bk.srv, bk.db, bk.E, bk.gs, bk.ks, bk.should, bk.paidable, bk.cause
 }
 
 // rebuild re-executes the accepted history on a fresh server until every claim produced its requested
@@ -1152,6 +1220,13 @@ func (s *scen) hashPerm(sw int) []byte {
 			mcu = p.CuSum
 		}
 		fmt.Fprintf(h, "k%d p%d m%d d%d", kk, s.pending[k], mcu, dbcu[k])
+		kf := s.ks[k].fails
+		if kf > giveUp {
+			kf = giveUp
+		}
+		if s.hasDB { // the identity counters only decide whether a DB delete is a give-up by design
+			fmt.Fprintf(h, " ks%v/%d/%v", s.ks[k].subs > 0, kf, s.ks[k].oks > 0)
+		}
 		if ent, ok := s.should[k]; ok {
 			fmt.Fprintf(h, " s%d,cur=%v,%s,%s", ent.cu, ent.g.g == s.gen[k], stat(ent.g), ent.lostBy)
 		}
@@ -1199,13 +1274,13 @@ func init() {
 		}
 		rest := ", snapshot, paymentEvent per proof identity, advanceChainMemory (earliest 20->30->40), crash+restart; plus a restart at every prefix of the DB-operation log"
 		parts := []part{
-			{"c29/retries", "retries", 8, 25 * time.Second, fmt.Sprintf(boundText, "7", "10", "")},
-			{"c29/rewards-cu2", "events", 5, 55 * time.Second, fmt.Sprintf(boundText, "7|8", "10|20", rest)},
+			{"c29/retries", "retries", 7, 20 * time.Second, fmt.Sprintf(boundText, "7", "10", "")},
+			{"c29/rewards-cu2", "events", 5, 60 * time.Second, fmt.Sprintf(boundText, "7|8", "10|20", rest)},
 		}
 		if ev.Tier() == "thorough" {
 			parts = []part{
 				{"c29/retries", "retries", 16, 2 * time.Minute, fmt.Sprintf(boundText, "7", "10", "")},
-				{"c29/rewards", "events", 5, 4 * time.Minute, fmt.Sprintf(boundText, "7|8", "10|20|30", rest)},
+				{"c29/rewards", "events", 5, 5 * time.Minute, fmt.Sprintf(boundText, "7|8", "10|20|30", rest)},
 				{"c29/rewards-cu2", "events_cu2", 6, 8 * time.Minute, fmt.Sprintf(boundText, "7|8", "10|20", rest)},
 			}
 		}
@@ -1240,7 +1315,7 @@ func init() {
 		run.Set("exhaustive", exhaustive)
 		run.Set("bound", strings.Join(bounds, " ;; "))
 		run.Assume("SendNewProof is one critical section under the server lock, so concurrent arrivals are equivalent to the sequential orders that are enumerated")
-		run.Assume("a proof whose own submissions failed MaxPaymentRequestsRetiresForSession times may be dropped for good (give-up by design); proofs removed by a payment event or whose epoch left chain memory need not be restored")
+		run.Assume("a proof may be dropped for good (give-up by design) once the submissions of its identity (epoch, consumer, session - all proofs received for it in this process lifetime counted together) failed MaxPaymentRequestsRetiresForSession times; proofs removed by a payment event or whose epoch left chain memory need not be restored")
 		run.Assume("the two claim goroutines of sendRewardsClaim (new proofs / retried proofs) are run one after the other in both orders (the second TxRelayPayment is released only after the first goroutine has exited); finer interleavings inside the goroutines are not explored - in particular both goroutines assign the enclosing function's err variable between their TxRelayPayment call and its check")
 		run.Assume("a DB BatchSave / DeletePrefix is atomic (badger transaction); crash points lie between DB operations")
 		run.Assume("same-session-id proofs inside one claim are enumerated in two orders (ascending / descending by (epoch, consumer)), not in all permutations of groups of 3 or 4")
